@@ -172,6 +172,19 @@ def stale_link_kinds(mem_abs):
     return out
 
 
+def copy_touches_link(pre, req):
+    """the destination of a copy is a link, or a link lies below it"""
+    t = req.split(' ')
+    if t[0] not in ('copy', 'copy_b') or len(t) < 3:
+        return False
+    cwd, nodes = parse(pre)
+    try:
+        k2 = lexical(cwd, bytes.fromhex(t[2][1:]).decode())
+    except Exception:
+        return False
+    return bool(k2) and any(f[1] == 'l' and (f[0] == k2 or f[0].startswith(k2 if k2 == '2f' else k2 + '2f')) for f in nodes.values())
+
+
 def classify(req, so, mo, pre, mem_pre=None, sd=None, md=None):
     """known divergence classes (findings), by (pre-state, call)"""
     t = req.split(' ')
@@ -251,7 +264,9 @@ def classify(req, so, mo, pre, mem_pre=None, sd=None, md=None):
             return 'move_onto_existing_dir'
     if op in ('chmod', 'mkfile_m') and (kind == 'l' or any(f[1] == 'l' and (f[0].startswith((k or '') + '2f') or k == '2f') for f in nodes.values())):
         return 'chmod_links'
-    if op in ('mode', 'is_exec', 'is_readonly') and kind == 'l':
+    if op in ('is_exec', 'is_readonly', 'uid', 'gid', 'owner') and kind == 'l':
+        return 'S6_metadata_follows_link'
+    if op == 'mode' and kind == 'l':
         return 'mode_of_link'
     if op in ('dirs', 'files', 'all_dirs', 'all_files', 'paths', 'all_paths') and kind == 'l':
         return 'listing_on_link'
@@ -372,11 +387,16 @@ def run(tier, seed, replay):
                 zd = norm_cwd(strip_abs(zd))
                 corr_steps += 1
                 special = any(int(fz[2], 8) & 0o7000 for fz in parse(pre)[1].values())
-                through_link = t0[0] in ('copy', 'copy_b') and classify(req, so, mo, pre, mem_pre) == 'copy_dst_link'
+                through_link = copy_touches_link(pre, req)
                 if (zo == 'err Other' and lean_cls == 'uncovered') or special or through_link:
                     model_alive = False           # not modelled: entry / entries / handles; a copy that creates entries THROUGH a link (the kernel model does not follow intermediate links); setuid/setgid/sticky inheritance
                 elif not (same_result(so, zo) and sd == zd):
                     if t0[0] in ('copy', 'copy_b') and vlib._copy_into_itself(req, 'x ## cwd ' + parse(pre)[0]):
+                        model_alive = False
+                    elif lean_cls == 'S8_move_links' and same_result(so, zo):
+                        # moved links: the model re-derives targets from recomputed link texts; texts written by earlier
+                        # renames (chains of moves) are not tracked exactly - outside the theorem's domain (S8), not asserted
+                        cuts['model_scope_moved_links'] = cuts.get('model_scope_moved_links', 0) + 1
                         model_alive = False
                     else:
                         corr_fail.append(dict(history=h[:i + 1], stdfs=x[:1500], model=(zo + ' ## ' + zd)[:1500], cls=lean_cls))
